@@ -265,28 +265,27 @@ func (a *jwtAuthenticator) getCacheTTL(key *jose.JSONWebKey) time.Duration {
 	// we cache by default using the settings in the certificate (if available)
 	// or based on ttl. Latter overwrites the settings in the certificate
 	// if it is shorter than the ttl of the certificate
-	certTTL := x.IfThenElseExec(len(key.Certificates) != 0,
-		func() time.Duration {
-			expiresIn := key.Certificates[0].NotAfter.Unix() - time.Now().Unix() - timeLeeway
-
-			return x.IfThenElse(expiresIn > 0, time.Duration(expiresIn)*time.Second, 0)
-		},
-		func() time.Duration { return 0 })
-
 	configuredTTL := x.IfThenElseExec(a.ttl != nil,
 		func() time.Duration { return *a.ttl },
 		func() time.Duration { return defaultJWTAuthenticatorTTL })
 
-	switch {
-	case configuredTTL == 0 && certTTL == 0:
-		return 0
-	case configuredTTL == 0 && certTTL != 0:
-		return certTTL
-	case configuredTTL != 0 && certTTL == 0:
+	if len(key.Certificates) == 0 {
+		// no expiry information available. Only the configured ttl can be used
 		return configuredTTL
-	default:
-		return min(configuredTTL, certTTL)
 	}
+
+	expiresIn := key.Certificates[0].NotAfter.Unix() - time.Now().Unix() - timeLeeway
+	if expiresIn <= 0 {
+		// the certificate expires within the leeway. The key must not be cached
+		return 0
+	}
+
+	certTTL := time.Duration(expiresIn) * time.Second
+	if configuredTTL == 0 {
+		return certTTL
+	}
+
+	return min(configuredTTL, certTTL)
 }
 
 func (a *jwtAuthenticator) serverMetadata(ctx heimdall.Context, claims map[string]any) (oauth2.ServerMetadata, error) {
